@@ -63,10 +63,19 @@ def main():
                 else:
                     gen = fn(io.BytesIO(data), table)
                 lim = case.get('limit')
+                kept = []
                 for i, x in enumerate(gen):
                     if lim is not None and i >= lim:
                         break
                     rec['items'].append(describe(what, x))
+                    if what in ('traces', 'callstacks'):
+                        kept.append(x)
+                # nothing already reported is later changed: the objects handed out describe the same when the request is over
+                late = [describe(what, x) for x in kept]
+                if kept and late != rec['items']:
+                    j = next(k for k in range(len(late)) if late[k] != rec['items'][k])
+                    rec['err'] = 'ReportedObjectChangedLater'
+                    rec['changed'] = {'index': j, 'when_reported': rec['items'][j], 'at_the_end': late[j]}
             except Exception as ex:
                 rec['err'] = type(ex).__name__
             rec['cfg_after'] = {'filter_tid': p.filter_tid, 'filter_process': p.filter_process,
